@@ -68,6 +68,11 @@ CHECKS["C13"] = dict(level="model_checking", engine="seqx",
    text="Operations ingest(org in {0,1}, index in {a, ab, a-b}), add/remove alias (x, and ab which is also an index name), delete(org, index | a*), rotate; BFS to depth 4 (quick, 761 states) / 5 (thorough). In every state 9 index expressions (names that are prefixes of each other, wildcard, *, alias, lists, unknown) x both organisations x {search, stats count} must return no event of the other organisation, nothing outside the named indexes and everything inside them; deleting removes exactly that organisation's index.",
    note="Multi-tenancy enters through the public seam (GetIdsConditionHook -> [0,1], org id argument of the processing functions). Whether a wildcard expands alias names and which reading wins when an alias shares its name with an index is left open (lower/upper bounds). Metrics tenancy and column listings are not yet in the query forms. Known: aliases of org != 0 never resolve.",
    ref="DESIGN.md §4 C13")
+CHECKS["C19"] = dict(level="exploration", engine="seqx",
+   technique="bounded-exhaustive enumeration of names over a path-metacharacter alphabet x all path-deriving API operations, sent over HTTP through the real routers of the booted server; file-tree snapshot oracle",
+   text="All names of <=2 (quick) / <=3 (thorough) atoms over {a, .., ., /, \\, %2e%2e, %2f, ../, x.csv, outside, ~, victim} plus targeted escapes (1-6 levels of ../ towards a sentinel directory, encoded and backslash variants, absolute paths, 300 characters, 40 levels) are used as the client-controlled name in 20 operations: lookup upload/get/delete, inputlookup, bulk _index + rotation, PUT/DELETE index, search index name, alias add (alias name / index name), dashboard create/get/update/delete, folder create/get, saved query save/get/delete, metric name and tag value + block rotation. After every single operation a snapshot (path, size, hash) of everything outside data/ and logs/ must be unchanged and no response may contain the sentinel's content.",
+   note="Route parameters reach handlers exactly as the real fasthttp router delivers them (raw, undecoded). defaultDBs/ (cwd-relative, written by the dashboard code itself) is excluded. Scroll ids and tenant ids are not client-controlled in this tree. Five traversal findings were fixed in two commits (lookup names; index/alias names).",
+   ref="DESIGN.md §4 C19")
 NOT_YET = {}
 props = [json.loads(l) for l in open("properties.jsonl")]
 m = {"version": 1, "setup_cmd": "./vcheck setup",
